@@ -191,13 +191,12 @@ Inductive res := ROk | RSyntax | RInvalidMod | RNotFound | RIndex.
 
 Definition is_com (t : mtok) : bool := match t with KCom _ => true | _ => false end.
 
-(* a rejected text leaves the items alone; a text without any token but
-   comments is rejected late ("No content"), after the flag was cleared
-   (an empty text is rejected before anything is touched) *)
+(* a rejected text leaves the list alone: items and flag (the flag is only
+   assigned after the last point that can raise) *)
 Definition set_text (d : mlist) (toks : list mtok) : mlist * res :=
   match parse_list toks with
   | Some its => (mkMl (canon its) true, ROk)
-  | None => (match toks with [] => d | _ => if forallb is_com toks then mkMl (items d) false else d end, RSyntax)
+  | None => (d, RSyntax)
   end.
 
 Fixpoint delete_first (n : str) (l : list mitem) : list mitem :=
